@@ -44,6 +44,9 @@ pub struct Step {
     /// n2's display-only bindings.
     pub hide_success: bool,
     pub hide_progress: bool,
+    /// Write every output after the `|` (a statement without explicit outputs:
+    /// `build | a b: rule in`).
+    pub no_explicit_outs: bool,
 }
 
 impl Default for EdgeKind {
@@ -174,12 +177,20 @@ impl Project {
                 r
             };
             t.push_str("build");
-            for o in &s.outs {
-                t.push(' ');
-                t.push_str(&esc(o));
+            if !s.no_explicit_outs {
+                for o in &s.outs {
+                    t.push(' ');
+                    t.push_str(&esc(o));
+                }
             }
-            if !s.implicit_outs.is_empty() {
+            if !s.implicit_outs.is_empty() || s.no_explicit_outs {
                 t.push_str(" |");
+                if s.no_explicit_outs {
+                    for o in &s.outs {
+                        t.push(' ');
+                        t.push_str(&esc(o));
+                    }
+                }
                 for o in &s.implicit_outs {
                     t.push(' ');
                     t.push_str(&esc(o));
